@@ -33,3 +33,28 @@ Proof.
   rewrite Nat2N.inj_succ, N2Nat.id. destruct n as [|p]; [reflexivity|].
   pose proof (N.size_gt (N.pos p)) as H. rewrite N.pow_succ_r'. lia.
 Qed.
+
+From Coq Require Import Bool ZifyNat.
+
+Lemma digits_rev_digit fuel n : Forall (fun d => d < 10) (digits_rev fuel n).
+Proof.
+  revert n; induction fuel as [|f IH]; intros n; cbn [digits_rev]; [constructor|].
+  destruct (n <? 10) eqn:E.
+  - constructor; [lia|constructor].
+  - constructor; [apply N.mod_lt; lia|apply IH].
+Qed.
+Lemma dec_is_digits n : Forall (fun b => is_digit b = true) (dec n).
+Proof.
+  unfold dec. apply Forall_forall. intros b Hb. apply in_map_iff in Hb as (d & <- & Hd).
+  apply in_rev in Hd. pose proof (digits_rev_digit (S (N.to_nat (N.size n))) n) as H.
+  rewrite Forall_forall in H. specialize (H d Hd). unfold is_digit. lia.
+Qed.
+Lemma dec_nonempty n : dec n <> [].
+Proof.
+  unfold dec. cbn [digits_rev]. destruct (n <? 10); cbn [rev]; intros H;
+  apply map_eq_nil in H; apply app_eq_nil in H; destruct H; discriminate.
+Qed.
+Lemma dec_small n : n < 10 -> dec n = [n + 48].
+Proof.
+  intro H. unfold dec. cbn [digits_rev]. destruct (n <? 10) eqn:E; [reflexivity|lia].
+Qed.
